@@ -1208,7 +1208,10 @@ class PSFPhotometry(ModelImageMixin):
                 y_bounds = np.array([i for i in y_bounds if i is not None])
                 dx = x_bounds - row[xcolname]
                 dy = y_bounds - row[ycolname]
-                if np.any(dx == 0) or np.any(dy == 0):
+                # bounded fitters stop within rounding of a bound, not
+                # exactly on it
+                if (np.any(np.isclose(dx, 0.0, rtol=0.0, atol=1.0e-6))
+                        or np.any(np.isclose(dy, 0.0, rtol=0.0, atol=1.0e-6))):
                     flags[index] += 32
 
         return flags
